@@ -122,7 +122,14 @@ def w_generate(case):
     # 3. the command itself, on a directory with pre-existing contents
     root = tempfile.mkdtemp(prefix="fcpgen_o_")
     try:
-        odir = os.path.join(root, "out")
+        base = snaproot = root
+        if case.get("via_symlink"):
+            # the output directory is reached through a symbolic link (build -> store): the files land in the real directory
+            snaproot = os.path.join(root, "real")
+            os.makedirs(snaproot)
+            base = os.path.join(root, "link")
+            os.symlink(snaproot, base)
+        odir = os.path.join(base, "out")
         if case["pre"] is not None:
             os.makedirs(odir)
             for rel, c in case["pre"].items():
@@ -130,11 +137,11 @@ def w_generate(case):
                 os.makedirs(os.path.dirname(p), exist_ok=True)
                 with open(p, "w") as f:
                     f.write(c)
-        schema_path = os.path.join(root, "schema.fcp")
+        schema_path = os.path.join(base, "schema.fcp")
         if case.get("via_cli"):
             with open(schema_path, "w") as f:
                 f.write(case["text"])
-        before = _snapshot(root)
+        before = _snapshot(snaproot)
         buf = io.StringIO()
         try:
             if case.get("via_cli"):
@@ -158,7 +165,7 @@ def w_generate(case):
             out["result"] = {"exc": type(e).__name__, "msg": str(e)[:100]}
         out["stdout"] = buf.getvalue()
         out["before"] = before
-        out["after"] = _snapshot(root)
+        out["after"] = _snapshot(snaproot)
     finally:
         shutil.rmtree(root, ignore_errors=True)
     return out
@@ -274,7 +281,7 @@ def run_c10(prop, tier):
                 poison = decls_poison
         else:
             g = rng.choice(["dbc", "can_c", "cpp", "nop", "dbc", "can_c"])
-        c = {"text": text, "generator": g, "pre": rng.choice(PRE), "poison": poison, "via_cli": rng.random() < 0.5}
+        c = {"text": text, "generator": g, "pre": rng.choice(PRE), "poison": poison, "via_cli": rng.random() < 0.5, "via_symlink": rng.random() < 0.25}
         if prop == "C10" and rng.random() < 0.2:
             # a plug-in check rejecting with an arbitrary payload, in any category and position
             c.update({"text": 'version: "3"\n\n' + "\n".join(GOOD) +
